@@ -16,6 +16,16 @@
 //   k                                   the queue's default geometry: CONST nq=.. seg=..
 //   b <w|q> <nq> <seg> <np> <N>         backlog: np threads push N elements in all (concurrently if
 //                                       np > 1), then one thread pops N+1 times; summary line
+//   l <seg> <N> <cmds>                  ONE lane buffer (uSWSR_Ptr_Buffer + BufferPool + dynqueue) with a
+//                                       producer and a consumer coroutine under forced interleavings
+//   L <w|q> <nq> <seg> <N> <cmds>       the same through the whole queue (1 producer, 1 consumer)
+//     in these two modes the lane buffer's own yield points are switched on: every WMB() (= in front
+//     of each publishing store of a segment push, of the segment cache push and of the in-use list)
+//     and the memset of SWSR_Ptr_Buffer::reset (segments > 512 entries), plus one at every
+//     operation boundary.  The consumer starts pop k only after push k has returned, so the expected
+//     summary does not depend on the schedule.  cmds (comma separated; p = producer, c = consumer):
+//     p<n> n parks | po<n> until n more operations returned | pm / pw until parked at a memset / WMB
+//     | pf until finished
 // progs: threads separated by '/', operations by ',':  p<value> | c ;  "-" = empty program
 // sched: one hex digit (thread id) per action; "-" = empty.  After the schedule the unfinished
 // threads run round-robin, one action each per pass, for at most FUEL passes.
@@ -71,14 +81,32 @@ verif_swap:
 #include <memory>
 #include <sched.h>
 
+#include <functional>
+#include <algorithm>
+#include <new>
+#include <cassert>
+#include <assert.h>
+
 #include <fix8/f8config.h>
-#include <fix8/ff/allocator.hpp>
-#include <fix8/ff/buffer.hpp>
-#include <fix8/ff/ubuffer.hpp>
 #include <fix8/ff/sysdep.h>
 #include <fix8/ff/platforms/platform.h>
+#include <fix8/ff/config.hpp>
 #include <fix8/ff/mpmc/asm/abstraction_dcas.h>
 #include <fix8/ff/spin-lock.hpp>
+// The lane buffer (buffer.hpp, dynqueue.hpp, ubuffer.hpp) is compiled with yield points of its own:
+// WMB() stands in front of every publishing store, memset is the segment clean-up of reset().
+// All headers these three include have been included above, so only their own code sees the macros.
+static void verif_lane_yield(char kind);
+#undef WMB
+#define WMB() do { verif_lane_yield('W'); __asm__ __volatile__ ("": : :"memory"); } while (0)
+#define memset(a, b, c) (verif_lane_yield('M'), memset(a, b, c))
+#include <fix8/ff/buffer.hpp>
+#include <fix8/ff/dynqueue.hpp>
+#include <fix8/ff/ubuffer.hpp>
+#undef memset
+#undef WMB
+#define WMB() __asm__ __volatile__ ("": : :"memory")
+#include <fix8/ff/allocator.hpp>
 namespace ff {		// MPMCqueues.hpp includes this header inside namespace ff as well
 #include <fix8/ff/mpmc/asm/atomic.h>
 }
@@ -91,6 +119,8 @@ extern "C" const char *__asan_default_options() { return "quarantine_size_mb=2";
 static const int FUEL = 400;			// drain passes (the model uses the same number)
 static bool g_sched = false;			// baton mode (false: free running, yields are no-ops)
 static bool g_deref = false;			// payloads are long* to be dereferenced for printing
+static bool g_lane = false;			// the lane buffer's own yield points are active (modes l, L)
+static bool g_log = false;			// record a token per shared action (modes q, w, v)
 static bool g_abandon = false;
 static std::atomic<bool> g_abort(false);	// free-running mode: the deadline has passed, leave the queue code
 static std::chrono::steady_clock::time_point g_deadline;	// free-running / backlog mode
@@ -106,6 +136,7 @@ struct Local
 	const void *first_addr = nullptr;	// address of the first atomic read of this operation (preadP/preadC)
 	unsigned long first_val = 0;		// last value read there
 	unsigned long ticket = 0;		// compare value of the last CAS this thread won
+	char park = 0;				// kind of the yield point the coroutine is parked at
 };
 
 // one coroutine per model thread
@@ -160,6 +191,18 @@ static void verif_yield()
 		if (g_abort.load(std::memory_order_relaxed)) throw Abandon();
 		return;
 	}
+	tl.park = 'a';
+	to_main(false);
+	if (g_abandon)
+		throw Abandon();
+}
+
+// yield points inside the lane buffer: 'W' in front of a publishing store, 'M' in front of the
+// segment clean-up, 'B' between two operations of the lane drivers
+static void verif_lane_yield(char kind)
+{
+	if (!g_sched || !g_lane) return;
+	tl.park = kind;
 	to_main(false);
 	if (g_abandon)
 		throw Abandon();
@@ -170,7 +213,7 @@ static inline unsigned long verif_read(atomic_long_t *l)
 {
 	verif_yield();
 	const unsigned long v(atomic_long_read(l));
-	if (g_sched)
+	if (g_log)
 	{
 		if (!tl.first_addr) tl.first_addr = l;
 		if (tl.first_addr == l) tl.first_val = v;
@@ -181,7 +224,7 @@ static inline unsigned long verif_read(atomic_long_t *l)
 static inline void verif_set(atomic_long_t *l, long i)
 {
 	verif_yield();
-	if (g_sched) tok('w', static_cast<unsigned long>(i));
+	if (g_log) tok('w', static_cast<unsigned long>(i));
 	atomic_long_set(l, i);
 }
 struct verif_slot : public uSWSR_Ptr_Buffer
@@ -191,14 +234,14 @@ struct verif_slot : public uSWSR_Ptr_Buffer
 	bool push(void *const d)
 	{
 		verif_yield();
-		if (g_sched) tok('u', payload(d));
+		if (g_log) tok('u', payload(d));
 		return uSWSR_Ptr_Buffer::push(d);
 	}
 	bool pop(void **d)
 	{
 		verif_yield();
 		const bool r(uSWSR_Ptr_Buffer::pop(d));
-		if (g_sched)
+		if (g_log)
 		{
 			if (r) tok('o', payload(*d));
 			else g_tok.push_back(std::to_string(tl.id) + "o!");
@@ -211,7 +254,7 @@ static inline atom_t verif_cas(volatile atom_t *dest, atom_t exch, atom_t cmp)
 {
 	verif_yield();
 	const atom_t r(abstraction_cas(dest, exch, cmp));
-	if (g_sched)
+	if (g_log)
 	{
 		const bool ok(r == cmp);
 		g_tok.push_back(std::to_string(tl.id) + "x" + std::to_string((unsigned long)cmp) + ":" + (ok ? "1" : "0"));
@@ -295,7 +338,7 @@ struct ValClient : Client
 	}
 };
 
-struct Job { Client *cl; const Prog *prog; };
+struct Job { Client *cl; const Prog *prog; std::function<void()> body; };
 static std::vector<Job> g_job;
 
 static void fiber_main()
@@ -307,7 +350,9 @@ static void fiber_main()
 	try
 	{
 		Client *cl(g_job[id].cl);
-		for (const Op& o : *g_job[id].prog)
+		if (g_job[id].body)
+			g_job[id].body();
+		else for (const Op& o : *g_job[id].prog)
 		{
 			tl.first_addr = nullptr;
 			tl.in_push = o.push;
@@ -343,6 +388,25 @@ static void give(int t)
 	g_cur = nullptr;
 }
 
+// create coroutine t (its job is g_job[t]) on pooled stack t
+static void spawn(int t)
+{
+	std::unique_ptr<Fiber> f(new Fiber);
+	while (g_stacks.size() <= static_cast<size_t>(t))
+		g_stacks.push_back(static_cast<char *>(malloc(STACK_SIZE)));
+	f->stack = g_stacks[t];
+	f->id = t;
+	STACK_UNPOISON(f->stack, STACK_SIZE);	// frames abandoned by the previous user of this stack
+	// initial frame: six zeroed callee-saved registers, the entry point as return address of
+	// verif_swap, and a null return address so that fiber_main starts with a call-aligned stack
+	void **top(reinterpret_cast<void **>(f->stack + STACK_SIZE));	// malloc'ed: 16-byte aligned
+	*--top = nullptr;
+	*--top = reinterpret_cast<void *>(&fiber_main);
+	for (int r(0); r < 6; ++r) *--top = nullptr;
+	f->sp = top;
+	g_fib.push_back(std::move(f));
+}
+
 // round-robin over the unfinished threads among 0..n-1, one action each per pass
 static bool drain(int n)
 {
@@ -374,22 +438,10 @@ static std::string run_sched(Client *cl, std::vector<Prog> progs, const std::str
 	g_job.clear();
 	for (int t(0); t <= n; ++t)
 	{
-		g_job.push_back(Job{ cl, &progs[t] });
-		std::unique_ptr<Fiber> f(new Fiber);
-		while (g_stacks.size() <= static_cast<size_t>(t))
-			g_stacks.push_back(static_cast<char *>(malloc(STACK_SIZE)));
-		f->stack = g_stacks[t];
-		f->id = t;
-		STACK_UNPOISON(f->stack, STACK_SIZE);	// frames abandoned by the previous user of this stack
-		// initial frame: six zeroed callee-saved registers, the entry point as return address of
-		// verif_swap, and a null return address so that fiber_main starts with a call-aligned stack
-		void **top(reinterpret_cast<void **>(f->stack + STACK_SIZE));	// malloc'ed: 16-byte aligned
-		*--top = nullptr;
-		*--top = reinterpret_cast<void *>(&fiber_main);
-		for (int r(0); r < 6; ++r) *--top = nullptr;
-		f->sp = top;
-		g_fib.push_back(std::move(f));
+		g_job.push_back(Job{ cl, &progs[t], nullptr });
+		spawn(t);
 	}
+	g_log = true;
 	for (int t(0); t <= n; ++t)		// priming: run to the first yield point (no shared action)
 		give(t);
 	if (sched != "-")
@@ -406,10 +458,118 @@ static std::string run_sched(Client *cl, std::vector<Prog> progs, const std::str
 		give(t);
 	g_abandon = false;
 	g_sched = false;
+	g_log = false;
 	g_fib.clear();
 	std::string out;
 	for (const std::string& s : g_tok) { if (!out.empty()) out.push_back(' '); out += s; }
 	return out.empty() ? "-" : out;
+}
+
+//-------------------------------------------------------------------------------------------------
+// modes l and L: one producer and one consumer coroutine with the lane buffer's yield points on
+struct LaneClient : Client
+{
+	ff::uSWSR_Ptr_Buffer b;		// the real class; its code carries the lane yield points
+	LaneClient(unsigned long seg) : b(seg) { b.init(); }
+	bool push(unsigned long v) { return b.push(reinterpret_cast<void *>(v)); }
+	bool pop(unsigned long& v) { void *d(nullptr); const bool r(b.pop(&d)); v = reinterpret_cast<unsigned long>(d); return r; }
+};
+
+static std::string run_lane(Client *cl, unsigned long n, const std::string& cmds)
+{
+	unsigned long pushed(0), popped(0), empty(0), null(0), dup(0), ord(0), lost(0);
+	unsigned long done[2] = { 0, 0 };		// operations returned: producer, consumer
+	std::vector<unsigned char> seen(n + 2, 0);
+	g_tok.clear();
+	g_fib.clear();
+	g_job.clear();
+	g_job.push_back(Job{ cl, nullptr, [&] {
+		for (unsigned long j(1); j <= n; ++j)
+		{
+			verif_lane_yield('B');
+			if (cl->push(j)) ++pushed;
+			++done[0];
+		}
+	} });
+	g_job.push_back(Job{ cl, nullptr, [&] {
+		for (unsigned long k(1); k <= n + 1; ++k)
+		{
+			// pop k starts when push k has returned; the last, extra pop when everything has
+			do verif_lane_yield('B'); while (done[0] < (k <= n ? k : n));
+			unsigned long v(0);
+			if (!cl->pop(v)) ++empty;
+			else
+			{
+				++popped;
+				if (v < 1 || v > n) ++null;		// success reported, nothing usable delivered
+				else
+				{
+					if (seen[v]++) ++dup;
+					if (v != k) ++ord;
+				}
+			}
+			++done[1];
+		}
+	} });
+	g_abandon = false;
+	g_lane = true;
+	g_sched = true;
+	spawn(0);
+	spawn(1);
+	give(0);
+	give(1);
+	const unsigned long cap(60 * n + 10000);
+	bool stuck(false);
+	for (const std::string& item : split(cmds, ','))
+	{
+		if (item.size() < 2 || (item[0] != 'p' && item[0] != 'c')) continue;
+		const int who(item[0] == 'p' ? 0 : 1);
+		Fiber *f(g_fib[who].get());
+		const char kind(item[1]);
+		unsigned long steps(0);
+		if (kind >= '0' && kind <= '9')
+		{
+			for (unsigned long k(std::stoul(item.substr(1))); k > 0 && !f->finished; --k)
+				give(who);
+		}
+		else if (kind == 'o')
+		{
+			const unsigned long target(done[who] + std::stoul(item.substr(2)));
+			while (!f->finished && done[who] < target && ++steps < cap)
+				give(who);
+		}
+		else if (kind == 'm' || kind == 'w')
+		{
+			const char want(kind == 'm' ? 'M' : 'W');
+			do give(who); while (!f->finished && f->loc.park != want && ++steps < cap);
+		}
+		else if (kind == 'f')
+		{
+			while (!f->finished && ++steps < cap)
+				give(who);
+		}
+	}
+	for (unsigned long k(0); k < 2 * cap && !(g_fib[0]->finished && g_fib[1]->finished); ++k)
+	{
+		give(0);
+		give(1);
+	}
+	if (!(g_fib[0]->finished && g_fib[1]->finished)) stuck = true;
+	g_abandon = true;
+	give(0);
+	give(1);
+	g_abandon = false;
+	g_sched = false;
+	g_lane = false;
+	g_fib.clear();
+	g_job.clear();
+	for (unsigned long v(1); v <= n; ++v)
+		if (!seen[v]) ++lost;
+	std::ostringstream os;
+	os << "BACKLOG pushed=" << pushed << " popped=" << popped << " empty=" << empty << " null=" << null
+		<< " dup=" << dup << " lost=" << lost << " ord=" << ord;
+	if (stuck) os << " STUCK";
+	return os.str();
 }
 
 //-------------------------------------------------------------------------------------------------
@@ -630,6 +790,22 @@ int main()
 				std::unique_ptr<Client> cl;
 				if (kind == "w") cl.reset(new PtrClient); else cl.reset(new RawClient(nq, seg));
 				out = run_backlog(cl.get(), np, n);
+			}
+			else if (mode == "l")
+			{
+				unsigned long seg, n; std::string cmds;
+				is >> seg >> n >> cmds;
+				std::unique_ptr<Client> cl(new LaneClient(seg));
+				out = run_lane(cl.get(), n, cmds);
+			}
+			else if (mode == "L")
+			{
+				std::string kind, cmds; unsigned long nq, seg, n;
+				is >> kind >> nq >> seg >> n >> cmds;
+				g_deref = false;
+				std::unique_ptr<Client> cl;
+				if (kind == "w") cl.reset(new PtrClient); else cl.reset(new RawClient(nq, seg));
+				out = run_lane(cl.get(), n, cmds);
 			}
 			else if (mode == "f")
 			{
